@@ -110,7 +110,8 @@ CHECKS.update({
         text="SchemaDetect.tla is the decision table (18 supported triples, 1.18.0 variant marker, four layout presence "
              "combinations); TLC checks the table's own properties and emits every state of the box around the supported "
              "versions; each state is materialised as a directory and load_database (with two sentinel values of the "
-             "out-parameter), database_exists and create_or_load_database are validated by TLC against the table.",
+             "out-parameter), database_exists and create_or_load_database are validated by TLC against the table; database files that are "
+             "present but empty count as their layout being present.",
         design="§7 C13",
         note="box: major 0..4 x 19 minors x patch 0..4 x 2 variants x 4 presence combinations, plus seed-chosen far triples; "
              "cross-layout cases are loose by design; " + TRUST,
@@ -233,7 +234,8 @@ CHECKS.update({
              "through the schema's triggers, add, played-indicator update) and TraceChangeLog requires outcome, rows and all / after(k) / "
              "last / get to be what ChangeLog!Apply predicts. The stores the table API builds are also read through the high-level API "
              "(crates(), root_crates(), every crate's name / parent / children / descendants / tracks; tracks() and snapshot() of every "
-             "row), which must be the same view of the predicted rows.",
+             "row), which must be the same view of the predicted rows. An edge variant writes zero, the Unix epoch, the empty string and "
+             "false into every column.",
         design="§7 C18, §13.9, §13.10, §13.15",
         note="time points at whole-second resolution; blob columns compared by digest; columns a schema lacks are unconstrained; " + TRUST,
         technique="TLA+ row-store spec + TLC-enumerated operation sequences + replay + relational TLC trace validation"),
